@@ -47,6 +47,7 @@ type atomizer struct {
 	fn          *ssa.Function
 	helperDepth int
 	normEmpty   bool // render every spelling of an emptiness test as one atom
+	unroll      int  // how often a block may be entered again on one path (0: loops are cut at the first re-entry)
 }
 
 func (a *atomizer) o(v ssa.Value) string {
@@ -152,46 +153,66 @@ func (a *atomizer) pathsDNF(from, to *ssa.BasicBlock, limit int) ([][]literal, b
 	var out [][]literal
 	ok := true
 	phiVals := map[*ssa.Phi]ssa.Value{}
+	visits := map[*ssa.BasicBlock]int{}
 	var walk func(prev, b *ssa.BasicBlock, acc []literal, seen map[*ssa.BasicBlock]bool)
 	walk = func(prev, b *ssa.BasicBlock, acc []literal, seen map[*ssa.BasicBlock]bool) {
 		if len(out) > limit {
 			ok = false
 			return
 		}
-		// values of this block's phis on this path
-		var set []*ssa.Phi
+		// values of this block's phis on this path (a block entered again round a loop takes the new edge's values; a
+		// phi that reads another phi of the same block reads the value from before this entry)
+		type saved struct {
+			phi *ssa.Phi
+			old ssa.Value
+			had bool
+		}
+		var set []saved
 		if prev != nil {
 			for i, p := range b.Preds {
 				if p != prev {
 					continue
 				}
+				newVals := map[*ssa.Phi]ssa.Value{}
 				for _, ins := range b.Instrs {
 					phi, isPhi := ins.(*ssa.Phi)
 					if !isPhi {
 						break
 					}
-					if _, had := phiVals[phi]; !had {
-						phiVals[phi] = phi.Edges[i]
-						set = append(set, phi)
+					v := phi.Edges[i]
+					if inner, ok := v.(*ssa.Phi); ok {
+						if pv, known := phiVals[inner]; known {
+							v = pv
+						}
 					}
+					newVals[phi] = v
+				}
+				for phi, v := range newVals {
+					old, had := phiVals[phi]
+					set = append(set, saved{phi, old, had})
+					phiVals[phi] = v
 				}
 				break
 			}
 		}
 		defer func() {
-			for _, p := range set {
-				delete(phiVals, p)
+			for _, sv := range set {
+				if sv.had {
+					phiVals[sv.phi] = sv.old
+				} else {
+					delete(phiVals, sv.phi)
+				}
 			}
 		}()
 		if b == to {
 			out = append(out, append([]literal{}, acc...))
 			return
 		}
-		if seen[b] {
+		if visits[b] > a.unroll {
 			return
 		}
-		seen[b] = true
-		defer delete(seen, b)
+		visits[b]++
+		defer func() { visits[b]-- }()
 		if len(b.Instrs) == 0 {
 			return
 		}
